@@ -439,6 +439,7 @@ func c05Check(t *T, cc c05Chain) {
 	}
 
 	got := rec.Events
+	t.Tracef("status %d, writer calls [%s], trace: %s", rec.Status(), rec.CallLog(), strings.Join(got, " "))
 	if !eventsEqual(spec.ev, got) {
 		cur := &cursorRun{chain: cc.Chain, idx: -1}
 		cur.Next()
